@@ -14,6 +14,8 @@ if '--tier' in sys.argv:
     args = [a for a in args if a != tier]
 ids = args or sorted(d for d in os.listdir(os.path.join(V, 'seeded')) if os.path.isdir(os.path.join(V, 'seeded', d)))
 summary = []
+import tempfile
+EVDIR = tempfile.mkdtemp(prefix='seedtest-evidence.', dir='/var/tmp')   # per invocation: concurrent runs must not share it
 for sid in ids:
     d = os.path.join(V, 'seeded', sid)
     meta = json.load(open(os.path.join(d, 'meta.json')))
@@ -28,7 +30,7 @@ for sid in ids:
             res = {'caught': None, 'error': 'patch does not apply: ' + r.stderr[-300:]}
         else:
             t0 = time.time()
-            env = dict(os.environ, VERIF_REPO=wt, VERIF_EVIDENCE_DIR='/var/tmp/seedtest-evidence')
+            env = dict(os.environ, VERIF_REPO=wt, VERIF_EVIDENCE_DIR=EVDIR)
             cmd = [os.path.join(V, 'vc'), 'check', pid] + (['--tier', 'thorough'] if tier == 'thorough' else [])
             r = subprocess.run(cmd, cwd=V, env=env, capture_output=True, text=True)
             viol = [l for l in r.stdout.splitlines() if l.startswith('VIOLATION')]
@@ -44,5 +46,5 @@ for sid in ids:
     for l in res.get('violation_lines', []):
         print('     ', l)
     summary.append((sid, pid, res.get('caught')))
-shutil.rmtree('/var/tmp/seedtest-evidence', ignore_errors=True)
+shutil.rmtree(EVDIR, ignore_errors=True)
 print('caught %d of %d' % (sum(1 for s in summary if s[2]), len(summary)))
